@@ -214,5 +214,38 @@ theorem gen_pcube_iadd_eq_model (a b : Bin ℝ) :
   push_cast
   rfl
 
+/-- T-tie: `xBinnedPulseProfile.__iadd__`: counts add, errors add in quadrature -/
+theorem gen_pp_iadd_eq_model (c1 c2 e1 e2 : ℝ) : Gen.pp_iadd c1 c2 e1 e2 = (c1 + c2, quad e1 e2) := by
+  unfold Gen.pp_iadd quad
+  rl_simp
+
+/-- T-tie: `xBinnedCountSpectrum.__iadd__`: rates add, statistical errors add in quadrature -/
+theorem gen_pha1_iadd_eq_model (r1 r2 e1 e2 : ℝ) : Gen.pha1_iadd r1 r2 e1 e2 = (r1 + r2, quad e1 e2) := by
+  unfold Gen.pha1_iadd quad
+  rl_simp
+
+/-- the sum of pulse profiles / count spectra does not depend on the order or the grouping of the files -/
+theorem gen_pp_iadd_comm (c1 c2 e1 e2 : ℝ) : Gen.pp_iadd c1 c2 e1 e2 = Gen.pp_iadd c2 c1 e2 e1 := by
+  rw [gen_pp_iadd_eq_model, gen_pp_iadd_eq_model, quad_comm, add_comm]
+
+theorem gen_pp_iadd_assoc (c1 c2 c3 e1 e2 e3 : ℝ) :
+    Gen.pp_iadd (Gen.pp_iadd c1 c2 e1 e2).1 c3 (Gen.pp_iadd c1 c2 e1 e2).2 e3 =
+      Gen.pp_iadd c1 (Gen.pp_iadd c2 c3 e2 e3).1 e1 (Gen.pp_iadd c2 c3 e2 e3).2 := by
+  simp only [gen_pp_iadd_eq_model, quad_assoc, add_assoc]
+
+/-- T-tie: `xBinnedMDPMapCube.__iadd__`, one pixel of one layer: the five accumulated quantities are those of the cube sum `iadd`, and the three
+derived ones are recomputed from the *summed* quantities with the per-bin functions (`mdp99`, `nEff`, N_EFF / COUNTS where I > 0) -/
+theorem gen_mdpcube_iadd_eq_model (a b : Bin ℝ) (x y z : ℝ) :
+    Gen.mdpcube_iadd a.EMEAN a.I b.EMEAN b.I (a.counts : ℝ) (b.counts : ℝ) a.MU b.MU a.W2 b.W2 x y z =
+      (let s := iadd a b
+       (s.EMEAN, ((s.counts : ℕ) : ℝ), s.MU, s.W2, s.I, Kislat.mdp99 s.MU s.I s.W2, Kislat.nEff s.I s.W2,
+        if (0.0 : ℝ) < s.I then Kislat.nEff s.I s.W2 / ((s.counts : ℕ) : ℝ) else 0.0)) := by
+  unfold Gen.mdpcube_iadd iadd
+  simp only [gen_weighted_average_eq_model]
+  unfold Gen.calculate_n_eff Gen.calculate_mdp99 Kislat.nEff Kislat.mdp99
+  rl_simp
+  push_cast
+  by_cases h : (0.0 : ℝ) < a.I + b.I <;> by_cases h2 : (0.0 : ℝ) < wAvg2 a.MU a.I b.MU b.I <;> simp [h, h2]
+
 end C07
 end
